@@ -56,6 +56,7 @@ type LoopInfo struct {
 }
 
 type FuncExec struct {
+	coverCalls    map[string]int // post-call feasibility probes issued per call site
 	pendingReplay *ReplayInfo
 	pk         *PkgCtx
 	fn         *ssa.Function
